@@ -280,6 +280,38 @@ def body_mesh_req(env):
         env.holds('assembly B: same wall model behind assembly A as alone', res['X'][1] == res['Y'][1], key='setup_state_leaks_between_assemblies')
 
 
+def body_asm_bc(env):
+    """Reactor._setup_asm_bc: the outlet temperature / flow rate estimated for an assembly does not depend on the positions
+    set up before it.  Universe X: positions [A, (empty), B]; universe Y: [B] alone.  The heat balance Q = m cp dT is a stub
+    (uninterpreted function of its arguments), powers (also zero) and boundary-condition values are symbolic."""
+    import dassh.reactor as rm
+    from harness.common import StubSelf
+    kindA, kindB, zeroB = env.params['kinds'] + (env.params.get('zero_power_B', False),)
+    with env.patch([rm]):
+        Tin = env.real('T_inlet', lo=300, hi=900)
+        vals = {nm: env.pos('bc_%s' % nm, hi=2000) for nm in ('A', 'B')}
+        pw = {'A': env.pos('power_A', hi=1e9), 'B': 0.0 if zeroB else env.nonneg('power_B', hi=1e9)}
+
+        def q(power, t_in, coolant, mfr=None, t_out=None):
+            if env.mode == 'sym':
+                f = core.uf('QMCDT_' + ('T' if mfr is not None else 'M'), 3)
+                return Sym(f(core.toz(power), core.toz(t_in), core.toz(mfr if mfr is not None else t_out)))
+            return (t_in + power / (1275.0 * mfr)) if mfr is not None else power / (1275.0 * (t_out - t_in))
+        res = {}
+        for uni, names in (('X', ['A', None, 'B']), ('Y', ['B'])):
+            byp = [[] if nm is None else [nm, (0, 0, i), {('flowrate' if (kindA if nm == 'A' else kindB) == 'flowrate' else 'outlet_temp'): vals[nm]}]
+                   for i, nm in enumerate(names)]
+            inp = StubSelf(data={'Assignment': {'ByPosition': byp}})
+            pp = [[] if nm is None else [None, None, pw[nm], None] for nm in names]
+            tmpl = {nm: StubSelf(active_region=StubSelf(coolant=None)) for nm in ('A', 'B')}
+            s_ = StubSelf(inlet_temp=Tin, asm_templates=tmpl)
+            with env.patch([], extra={(rm.dassh.utils, 'Q_equals_mCdT'): q}):
+                To, fr = rm.Reactor._setup_asm_bc(s_, inp, pp)
+            res[uni] = (To[-1], fr[-1])
+        env.eq('assembly B: same estimated outlet temperature behind assembly A as alone', res['X'][0], res['Y'][0], key='setup_state_leaks_between_assemblies')
+        env.eq('assembly B: same flow rate behind assembly A as alone', res['X'][1], res['Y'][1], key='setup_state_leaks_between_assemblies')
+
+
 def instances(tier):
     inst = []
     kinds = [('rodded', 1), ('rodded', 2), ('simple',), ('6node',)]
@@ -291,6 +323,10 @@ def instances(tier):
                      check_vacuity=False))
     for codes in (('3-22', '1-111'), ('1-111', '3-22'), ('2-22', '2-12'), ('1-111', '1-111')):
         inst.append(dict(label='mesh-requirement[limiting cells %s then %s]' % codes, body=body_mesh_req, params={'codes': codes}))
+    for kinds in (('flowrate', 'flowrate'), ('outlet_temp', 'flowrate'), ('flowrate', 'outlet_temp')):
+        for zero in (False, True):
+            inst.append(dict(label='boundary-condition-setup[A=%s,B=%s%s]' % (kinds + (',B unpowered' if zero else '',)), body=body_asm_bc,
+                             params={'kinds': kinds, 'zero_power_B': zero}))
     inst.append(dict(label='object-graph[reactor,3 assemblies of one type]', body=body_graph_reactor, params={}, check_vacuity=False))
     inst.append(dict(label='object-graph[reactor,3 assemblies with an unrodded region]', body=body_graph_reactor,
                      params={'unrodded': True}, check_vacuity=False))
